@@ -74,7 +74,8 @@ def run(tier, seed, mutant=None, only_validate=False):
             if kind == "error":
                 raise core.MachineryError("DaskFlowTrace failed on %s: %s" % (name, detail[:800]))
             inv = kind.split()[-1]
-            res.violations.append(dict(property="C20", engine="adask", clause=inv,
+            res.violations.append(dict(property="C20", also={"CbSafe": ["C04", "C05"], "RcBalance": ["C05"]}.get(inv, []),
+                                       engine="adask", clause=inv,
                                        what="a recorded run of a real dask pipeline violates %s (%s)" % (inv, name),
                                        detail=detail, signature=dict(kind="trace-invariant", clause=inv)))
         nt = set()
@@ -101,8 +102,16 @@ def run(tier, seed, mutant=None, only_validate=False):
                     nt.add(json.dumps([c, r["order"]]))
             else:
                 e = r["ev"][got[0] - 1]
+                # the reference counters of a Dask segment are "balanced in the same way" as the local pipeline's (C20); a callback
+                # that fires somewhere else than at the segment's last release, or a release with another count, is also a
+                # checkpoint-safety / balance problem of scatter / gather themselves (C04 / C05)
+                also = []
+                if e["ev"] == "FiredElsewhere" or (e["ev"] == "Release" and e.get("fired")):
+                    also = ["C04", "C05"]
+                elif e["ev"] == "Release":
+                    also = ["C05"]
                 res.violations.append(dict(
-                    property="C20", engine="adask", clause=e["ev"],
+                    property="C20", also=also, engine="adask", clause=e["ev"],
                     what="dask %s, tasks finished in order %s: event #%d %s is not what DaskFlow allows (delivered %s)"
                          % (json.dumps(c, sort_keys=True), r["order"], got[0], e, r["delivered"]),
                     signature=dict(kind="trace", event=e["ev"], shape=c["shape"]),
@@ -151,7 +160,7 @@ def observer(res, work, out, nt):
         sig = dict(kind="dask-order", shape=c["shape"], producer="awaits" if c["await"] else "fire-and-forget") if inv == "InOrder" \
             else dict(kind="dask-observer", shape=c["shape"], clause=inv)
         res.violations.append(dict(
-            property="C20", engine="adask", clause=inv,
+            property="C20", also={"CbSafe": ["C04"], "RaisedNeverFires": ["C04"], "FiredOnce": ["C05"]}.get(inv, []), engine="adask", clause=inv,
             what="dask %s, tasks finished in order %s: %s (the local pipeline delivers %s)" % (json.dumps(c, sort_keys=True), r["order"], why,
                                                                                              r["expected"]),
             signature=sig, replay=dict(engine="adask", cfg=c, order=r["order"], ev=r["ev"])))
